@@ -115,6 +115,33 @@ def adjacent_run_group(draw):
 
 
 @st.composite
+def many_bits_pair(draw):
+    """top = a wildcard with 9..12 non-contiguous bits at arbitrary positions; bottom = a host or a small wildcard
+    that fixes each of those bits to 0 or 1 (any of them, the lowest and the highest included) and now and then
+    differs in one bit the top does not leave open."""
+    k = draw(st.integers(9, 12))
+    low = draw(st.integers(0, 3))
+    pos = draw(st.lists(st.integers(low + 1, 23), min_size=k, max_size=k, unique=True))
+    w = (1 << low) - 1
+    for p_ in pos:
+        w |= 1 << p_
+    base = draw(G.base_st()) & ~w & R.ALL1
+    keep = draw(st.lists(st.sampled_from(pos), max_size=3, unique=True))
+    bw = 0
+    for p_ in keep:
+        bw |= 1 << p_
+    if draw(st.booleans()):
+        bw |= (1 << low) - 1
+    bb = base | (draw(st.integers(0, R.ALL1)) & w & ~bw)
+    if draw(st.sampled_from(range(4))) == 0:
+        bb ^= 1 << draw(st.sampled_from([x for x in range(32) if not w >> x & 1]))
+    bb &= ~bw & R.ALL1
+    top = {"k": "wild", "b": base, "w": w}
+    bottom = {"k": "host", "b": bb, "w": 0} if bw == 0 else {"k": "wild", "b": bb, "w": bw}
+    return top, bottom
+
+
+@st.composite
 def addr_pair_st(draw, tier):
     mode = draw(st.sampled_from(range(10)))
     if mode < 2:
@@ -122,6 +149,9 @@ def addr_pair_st(draw, tier):
         return {"a": a, "b": b, "pa": draw(st.sampled_from(["ios", "nxos"])), "pb": draw(st.sampled_from(["ios", "nxos"]))}
     if mode == 2:
         a, b = draw(adjacent_run_group())
+        return {"a": a, "b": b, "pa": draw(st.sampled_from(["ios", "nxos"])), "pb": draw(st.sampled_from(["ios", "nxos"]))}
+    if mode == 3:
+        a, b = draw(many_bits_pair())
         return {"a": a, "b": b, "pa": draw(st.sampled_from(["ios", "nxos"])), "pb": draw(st.sampled_from(["ios", "nxos"]))}
     # 2^9 x 2^9 prefixes once in a while: the library's cover test may switch strategy with size
     kmax = draw(st.sampled_from([4] * 24 + [7] * 5 + [9]))  # 2^7 x 2^7 prefixes: large expansions, still cheap
@@ -291,6 +321,50 @@ def judge_readdress(case) -> Verdict:
     want = R.pairs_subset(_pairs(b2), _pairs(a))
     grouped = a["k"] == "group" or b2["k"] == "group"
     v = Verdict()
+    if case.get("refused") is not None:
+        # an edit the library refuses (more non-contiguous bits than the limit) and the caller survives: whatever
+        # the object shows afterwards is what the next answer has to describe
+        pair = case["refused"]
+        if not (isinstance(pair, list) and len(pair) == 2 and all(isinstance(x, int) and 0 <= x <= R.ALL1 for x in pair)):
+            raise Invalid()
+        if len(R.nc_bits(pair[1])) <= 16:
+            raise Invalid()
+        text = f"{R.int2ip(pair[0] & ~pair[1] & R.ALL1)} {R.int2ip(pair[1])}"
+        target = bot.items[case.get("refused_at", 0) % len(bot.items)] if b["k"] == "group" and bot.items else bot
+        if target is not bot or b["k"] != "group":
+            try:
+                target.line = text
+                v.label("refused-edit-was-accepted")
+            except ValueError:
+                v.label("refused-edit")
+            shown = []
+            for o in (bot.items if b["k"] == "group" else [bot]):
+                toks = o.line.split()
+                ad, _ = R._read_addr(toks[1:] if toks[0].isdigit() else toks, 0, platform, False)
+                shown.append(ad.pair)
+            if all(len(R.nc_bits(pr[1])) <= 12 for pr in shown):
+                want_shown = R.pairs_subset(shown, _pairs(a))
+            elif all(any(R.pair_contains(t, pr) for t in _pairs(a)) for pr in shown):
+                want_shown = True
+            elif len(_pairs(a)) == 1:
+                want_shown = False  # one top pair: containment is decided by bit algebra alone
+            else:
+                v.label("refused-edit-left-an-address-too-wide-to-expand")
+                return v
+            if want_shown != want:
+                v.label("refused-edit-changed-the-text")
+            want = want_shown
+            if not grouped:
+                for name, got in (("Address.subnet_of", bot.subnet_of(top)),
+                                  ("functions.subnet_of", functions.subnet_of(top=top, bottom=bot))):
+                    if bool(got) != want:
+                        v.fail(f"readdress:{name}:answer-differs-from-shown-address-after-refused-edit",
+                               {"top": top.line, "bottom_shown": bot.line, "refused": text, "library": got, "oracle": want})
+                return v
+            if bot.subnet_of(top) and not want and shown:
+                v.fail("readdress:Address.subnet_of:true-without-containment:grouped:after-refused-edit",
+                       {"top": top.line, "bottom_members": [x.line for x in bot.items], "refused": text})
+            return v
     for name, got in (("Address.subnet_of", bot.subnet_of(top)), ("functions.subnet_of", functions.subnet_of(top=top, bottom=bot))):
         if grouped:
             if got and not want and _pairs(b2):
@@ -315,7 +389,13 @@ def readdress_st(draw, tier):
     if (b["k"] == "group") != (b2["k"] == "group"):
         b2 = draw(G.addr_st(kmax=3, groups=True, kinds=["group"])) if b["k"] == "group" else \
             draw(G.addr_st(kmax=3, groups=False))
-    return {"a": a, "b": b, "b2": b2, "platform": draw(st.sampled_from(["ios", "nxos"]))}
+    case = {"a": a, "b": b, "b2": b2, "platform": draw(st.sampled_from(["ios", "nxos"]))}
+    if draw(st.sampled_from(range(4))) == 0:
+        # a netmask written where a wildcard belongs, or any other mask with 17+ non-contiguous bits
+        mask = draw(st.sampled_from([0xFFFFFF00, 0xFFFFFE00, 0xFFFFFFFC, 0xFFFF8000, 0x00FFFFFE, 0x55555554, 0xFFFFFFF0]))
+        case["refused"] = [draw(G.base_st()), mask]
+        case["refused_at"] = draw(st.integers(0, 3))
+    return case
 
 
 SUBS = [
@@ -327,6 +407,6 @@ SUBS = [
 
 MANIFEST = {
     "technique": "property-based differential testing: subnet_of / in answers compared with exact bit-algebra inclusion on derived address pairs in every spelling",
-    "text": "exploration: equality with exact set inclusion on thousands (quick) / hundreds of thousands (thorough) of plain address pairs across spellings and platforms, implication for grouped addresses, exact membership for address-group members, and ask / re-address (line setter or in-place member edits) / ask histories",
+    "text": "exploration: equality with exact set inclusion on thousands (quick) / hundreds of thousands (thorough) of plain address pairs across spellings and platforms, implication for grouped addresses, exact membership for address-group members, and ask / re-address (line setter or in-place member edits, incl. an edit the library refuses) / ask histories",
     "note": "trusted: lib/refsem.py inclusion algebra; k<=4 non-contiguous bits; group members contiguous (native member syntax); AddrGroup-in-AddrGroup not asserted",
 }
